@@ -67,6 +67,26 @@ def _powint(w):
     return int(w[1:]) if w else 1
 
 
+def _rand_power(rng, maxdigits=4):
+    """a text of the POWER grammar with any number of digits (or none)"""
+    if rng.random() < 0.15:
+        return ""
+    n = rng.randint(1, maxdigits)
+    return "^" + rng.choice(["", "", "+", "-"]) + rng.choice("123456789") + "".join(rng.choice("0123456789")
+                                                                                      for _ in range(n - 1))
+
+
+def _bounded_power(rng, p1, p2):
+    """a power text whose factor between the two prefixes stays well inside the float range"""
+    span = abs(SI_EXP[p1] - SI_EXP[p2]) or 1
+    kmax = max(1, min(99, 280 // span))
+    k = rng.randint(1, kmax)
+    return "^" + rng.choice(["", "+", "-"]) + str(k)
+
+
+BAD_POWERS = ["^", "^+", "^-", "^0", "^01", "^-0", "^+-1", "^--1", "^1.5", "^1e2", "^ 2", "^2 ", "^^2", "^2^2", "2", "^a"]
+
+
 # ---------------------------------------------------------------------------------------
 # implementation runner (canonicalised like the driver's output)
 
@@ -190,6 +210,49 @@ def gen_cases(ctx):
             t = s.replace(" ", "")
             add("compound.scaling", ["scaling", t, t])
             add("compound.scalable", ["scalable", t, rng.choice(optpre) + t])
+    # atoms with power texts of any number of digits; malformed powers; trailing newline (Python's `$`)
+    for _ in range(ctx.budget(3000, 30000)):
+        a = rng.choice(optpre) + rng.choice(un) + _rand_power(rng)
+        if rng.random() < 0.1:
+            a += rng.choice(["\n", "\n\n", " ", "\t"])
+        op = rng.choice(["is_atomic", "split", "is_si", "invert_power", "split_compound"])
+        add("bigpow." + op, [op, a])
+    for _ in range(ctx.budget(600, 6000)):
+        u, w = rng.choice(un), rng.choice(BAD_POWERS)
+        a = rng.choice(optpre) + u + w
+        op = rng.choice(["is_atomic", "split", "is_si", "invert_power", "split_compound", "is_compound"])
+        add("badpow." + op, [op, a])
+        if rng.random() < 0.3:
+            add("badpow.scaling", ["scaling", a, rng.choice(optpre) + u + w])
+    for _ in range(ctx.budget(2000, 20000)):
+        p1, p2, u = rng.choice(optpre), rng.choice(optpre), rng.choice(un)
+        w = _bounded_power(rng, p1, p2)
+        add("bigpow.scaling", ["scaling", p1 + u + w, p2 + u + w])
+        if rng.random() < 0.3:
+            w2 = _bounded_power(rng, p1, p2)
+            add("bigpow.scalable", ["scalable", p1 + u + w, p2 + u + w2])
+            add("bigpow.scaling_mixed", ["scaling", p1 + u + w, p2 + u + w2])
+    # longer compounds (2-7 atoms), any power text, blanks around separators, occasional damage
+    for _ in range(ctx.budget(2500, 25000)):
+        n = rng.randint(2, 7)
+        s = ""
+        for i in range(n):
+            if i:
+                s += rng.choice(["", "", " ", "  "]) + rng.choice("*/") + rng.choice(["", "", " ", "  "])
+            s += rng.choice(optpre) + rng.choice(un) + (_rand_power(rng, 3) if rng.random() < 0.6 else "")
+        r = rng.random()
+        if r < 0.08:
+            s += rng.choice(["*", "/", " ", "\n", "*/", "**m"])
+        elif r < 0.14:
+            k = rng.randrange(len(s))
+            s = s[:k] + rng.choice([" ", "*", "/", "^", "x", "\n"]) + s[k:]
+        elif r < 0.18:
+            s = rng.choice([" ", "*", "/"]) + s
+        add("seq.split_compound", ["split_compound", s])
+        add("seq.is_compound", ["is_compound", s])
+        if rng.random() < 0.3:
+            add("seq.is_si", ["is_si", s])
+            add("seq.split", ["split", s])
     # arbitrary strings over the unit alphabet (malformed stream)
     for _ in range(ctx.budget(3000, 40000)):
         n = rng.choice([0, 1, 1, 2, 2, 3, 3, 4, 5, 6, 8])
@@ -245,7 +308,10 @@ def correspondence(ctx):
                sorted(ctx.rng.sample(range(len(cases)), min(6, len(cases))))]
     return {"evaluations": len(cases), "distinct_nontrivial": len(seen),
             "rule": "complete prefix x unit x power atom table; scaling grid (thorough: complete 21x21x units x 7 powers; "
-                    "quick: two full 21x21 slices + 3000 samples); random mixed pairs; compounds of 2-4 atoms; random "
+                    "quick: two full 21x21 slices + 3000 samples); random mixed pairs; compounds of 2-4 atoms; atoms "
+                    "with power texts of 1-4 digits, malformed powers, trailing newline/blank; scaling with powers "
+                    "up to 99 (factor kept inside the float range); sequences of 2-7 atoms with blanks and damage "
+                    "through split_compound/is_compound; random "
                     "strings over the unit alphabet; sanitizer strings. non-trivial = result is an error, True, a "
                     "non-empty prefix/power, a factor != 1 or a changed string; distinct by canonical JSON of the case",
             "samples": samples, "distribution": {"ops": dist, "impl_errors": errs},
@@ -383,6 +449,19 @@ def oracle(ctx, broken, hints):
                 cases.append(["ratio", p1, p2, rng.choice(un), rng.choice(POWER7)])
         for _ in range(2000):
             cases.append(["ratio", rng.choice(optpre), rng.choice(optpre), rng.choice(un), rng.choice(POWERS)])
+    # powers of any number of digits: recognition and split for every text of the grammar, scaling where the
+    # factor stays inside the float range (the same prefix pair is visited with several powers in a row)
+    for _ in range(20000 if full else 3000):
+        cases.append(["atom", rng.choice(optpre), rng.choice(un), _rand_power(rng, 5)])
+    for _ in range(6000 if full else 1500):
+        p1, p2, u = rng.choice(optpre), rng.choice(optpre), rng.choice(un)
+        for _k in range(rng.randint(1, 3)):
+            cases.append(["ratio", p1, p2, u, _bounded_power(rng, p1, p2)])
+        if rng.random() < 0.3:
+            p3 = rng.choice(optpre)
+            w = _bounded_power(rng, rng.choice([p1, p3]), rng.choice([p2, p3]))
+            if max(abs(SI_EXP[a] - SI_EXP[b]) for a in (p1, p2, p3) for b in (p1, p2, p3)) * abs(_powint(w)) <= 280:
+                cases.append(["chain", p1, p2, p3, u, w])
     for _ in range(3000 if full else 500):
         cases.append(["chain", rng.choice(optpre), rng.choice(optpre), rng.choice(optpre), rng.choice(un),
                       rng.choice(POWERS)])
@@ -391,6 +470,14 @@ def oracle(ctx, broken, hints):
         p1, p2 = rng.choice(optpre), rng.choice(optpre)
         u1, u2 = rng.choice(un), rng.choice(un)
         w1, w2 = rng.choice(POWERS), rng.choice(POWERS)
+        if u1 != u2 or w1[1:] != w2[1:]:
+            cases.append(["unscalable", p1 + u1 + w1, p2 + u2 + w2])
+    for _ in range(5000 if full else 1000):
+        p1, p2 = rng.choice(optpre), rng.choice(optpre)
+        u1, u2 = rng.choice(un), rng.choice(un)
+        w1, w2 = _rand_power(rng, 3), _rand_power(rng, 3)
+        if rng.random() < 0.5:
+            u2 = u1
         if u1 != u2 or w1[1:] != w2[1:]:
             cases.append(["unscalable", p1 + u1 + w1, p2 + u2 + w2])
     # exhaustive: one unit against every other unit with every prefix of the first (homograph hunting)
@@ -405,6 +492,12 @@ def oracle(ctx, broken, hints):
         s = rng.choice(optpre) + rng.choice(un) + rng.choice(POWERS)
         for _i in range(n - 1):
             s += rng.choice("*/") + rng.choice(optpre) + rng.choice(un) + rng.choice(POWERS)
+        cases.append(["compound", s])
+    for _ in range(5000 if full else 1000):
+        n = rng.randint(2, 7)
+        s = rng.choice(optpre) + rng.choice(un) + _rand_power(rng, 3)
+        for _i in range(n - 1):
+            s += rng.choice("*/") + rng.choice(optpre) + rng.choice(un) + _rand_power(rng, 3)
         cases.append(["compound", s])
     for s in ["mmu", "mµ", "m μ", "mmmu", "m u", "mu", " µ", "mmuu", "mumu", "m m u"]:
         cases.append(["sanitize", s])
